@@ -18,6 +18,11 @@ import tempfile
 
 HERE = os.path.dirname(os.path.dirname(os.path.abspath(__file__)))
 REPO = os.environ.get("HSV_REPO", "/repo")
+if os.environ.get("HSV_SWEEP_FROM_HEAD"):
+    # work from a pristine export of HEAD (so that a concurrent, temporary edit of the working tree cannot leak in)
+    _exp = tempfile.mkdtemp(prefix="hsv-sweep-head-", dir="/tmp")
+    subprocess.run("git -C /repo archive HEAD | tar -x -C %s" % _exp, shell=True, check=True)
+    REPO = _exp
 
 FILE_PROPS = {
     "serving.rs": ["C01", "C02", "C03", "C04", "C05", "C06", "C07", "C12", "C13", "C14", "C15", "C20"],
